@@ -26,11 +26,13 @@ type vhloopFrame struct {
 	Mode    int    `json:"mode"`    // not gated: 0 ok, 1 backend error, 2 backend panic
 	Old     int    `json:"old"`     // flush
 	Fid     int    `json:"fid"`
-	NewFid  int    `json:"newfid"` // clone
+	NewFid  int    `json:"newfid"` // clone, walk1, xattrwalk
+	Fid2    int    `json:"fid2"`   // second fid (target directory, link target)
+	Files   []int  `json:"files"`  // Files this request has to itself: every backend call on them is made on its behalf
 }
 
 type vhloopStep struct {
-	Op     string        `json:"op"` // send | release | break | hangup
+	Op     string        `json:"op"` // send | release | break | hangup | hold (Mode = milliseconds)
 	Conn   int           `json:"conn"`
 	Frames []vhloopFrame `json:"frames,omitempty"`
 	Gate   int           `json:"gate"` // release: the gate; hangup: gate of a Close the server's stop() will block in (0 none)
@@ -42,6 +44,7 @@ type vhloopScn struct {
 	Frag  bool         `json:"frag"`
 	NConn int          `json:"nconn"`
 	NFid  int          `json:"nfid"`
+	Kinds string       `json:"kinds"` // per fid: r regular opened read-write (default), u regular not opened, d directory not opened, D directory opened, l symlink
 	Steps []vhloopStep `json:"steps"`
 }
 
@@ -66,41 +69,77 @@ type vhloopObs struct {
 }
 
 func vhloopBytes(f vhloopFrame) []byte {
+	tg := uint16(f.Tag)
 	switch f.K {
-	case "read":
+	case "read", "write":
 		off := uint64(f.Gate)
 		if f.Gate < 0 {
 			off = uint64(1<<40) + uint64(f.Mode) // fresh, never shut: returns at once
 		}
-		return vhloopEnc(uint16(f.Tag), &tread{fid: fid(f.Fid), Offset: off, Count: vhloopReadCount})
+		if f.K == "write" {
+			return vhloopEnc(tg, &twrite{fid: fid(f.Fid), Offset: off, Data: []byte("0123456789")})
+		}
+		return vhloopEnc(tg, &tread{fid: fid(f.Fid), Offset: off, Count: vhloopReadCount})
 	case "clunk":
-		return vhloopEnc(uint16(f.Tag), &tclunk{fid: fid(f.Fid)})
+		return vhloopEnc(tg, &tclunk{fid: fid(f.Fid)})
 	case "attach":
-		return vhloopEnc(uint16(f.Tag), &tattach{fid: fid(f.Fid), Auth: tauth{Authenticationfid: noFID, UserName: "u", AttachName: "", UID: NoUID}})
+		return vhloopEnc(tg, &tattach{fid: fid(f.Fid), Auth: tauth{Authenticationfid: noFID, UserName: "u", AttachName: "", UID: NoUID}})
 	case "getattr":
-		return vhloopEnc(uint16(f.Tag), &tgetattr{fid: fid(f.Fid), AttrMask: AttrMaskAll})
+		return vhloopEnc(tg, &tgetattr{fid: fid(f.Fid), AttrMask: AttrMaskAll})
 	case "setattr":
-		return vhloopEnc(uint16(f.Tag), &tsetattr{fid: fid(f.Fid)})
+		return vhloopEnc(tg, &tsetattr{fid: fid(f.Fid)})
 	case "clone":
-		return vhloopEnc(uint16(f.Tag), &twalkgetattr{fid: fid(f.Fid), newFID: fid(f.NewFid)})
+		return vhloopEnc(tg, &twalkgetattr{fid: fid(f.Fid), newFID: fid(f.NewFid)})
+	case "walk1":
+		return vhloopEnc(tg, &twalk{fid: fid(f.Fid), newFID: fid(f.NewFid), Names: []string{"a"}})
+	case "lopen":
+		return vhloopEnc(tg, &tlopen{fid: fid(f.Fid), Flags: ReadOnly})
+	case "fsync":
+		return vhloopEnc(tg, &tfsync{fid: fid(f.Fid)})
+	case "statfs":
+		return vhloopEnc(tg, &tstatfs{fid: fid(f.Fid)})
+	case "readlink":
+		return vhloopEnc(tg, &treadlink{fid: fid(f.Fid)})
+	case "lock":
+		return vhloopEnc(tg, &tlock{fid: fid(f.Fid), Type: WriteLock, Client: "c"})
+	case "xattrwalk":
+		return vhloopEnc(tg, &txattrwalk{fid: fid(f.Fid), newFID: fid(f.NewFid), Name: "user.a"})
+	case "readdir":
+		return vhloopEnc(tg, &treaddir{Directory: fid(f.Fid), Offset: 0, Count: 512})
+	case "lcreate":
+		return vhloopEnc(tg, &tlcreate{fid: fid(f.Fid), Name: "n", OpenFlags: ReadWrite, Permissions: 0o644, GID: NoGID})
+	case "mkdir":
+		return vhloopEnc(tg, &tmkdir{Directory: fid(f.Fid), Name: "n", Permissions: 0o755, GID: NoGID})
+	case "symlink":
+		return vhloopEnc(tg, &tsymlink{Directory: fid(f.Fid), Name: "n", Target: "x", GID: NoGID})
+	case "mknod":
+		return vhloopEnc(tg, &tmknod{Directory: fid(f.Fid), Name: "n", Mode: ModeRegular | 0o644, GID: NoGID})
+	case "link":
+		return vhloopEnc(tg, &tlink{Directory: fid(f.Fid), Target: fid(f.Fid2), Name: "n"})
+	case "unlinkat":
+		return vhloopEnc(tg, &tunlinkat{Directory: fid(f.Fid), Name: "n"})
+	case "renameat":
+		return vhloopEnc(tg, &trenameat{OldDirectory: fid(f.Fid), OldName: "n", NewDirectory: fid(f.Fid2), NewName: "m"})
+	case "rename":
+		return vhloopEnc(tg, &trename{fid: fid(f.Fid), Directory: fid(f.Fid2), Name: "m"})
 	case "flush":
-		return vhloopEnc(uint16(f.Tag), &tflush{OldTag: tag(f.Old)})
+		return vhloopEnc(tg, &tflush{OldTag: tag(f.Old)})
 	case "badtype": // unknown message type: recv returns the frame's tag with an error
-		return vhFrame(99, uint16(f.Tag), []byte{1, 2, 3})
+		return vhFrame(99, tg, []byte{1, 2, 3})
 	case "short": // Tread with a truncated body: recv returns NOTAG with an error
-		return vhFrame(byte(msgTread), uint16(f.Tag), []byte{1, 2, 3})
+		return vhFrame(byte(msgTread), tg, []byte{1, 2, 3})
 	case "rmsg": // an R-message: decodes, has no handler
-		return vhloopEnc(uint16(f.Tag), &rflush{})
+		return vhloopEnc(tg, &rflush{})
 	}
 	panic("vhloop: frame kind " + f.K)
 }
 
 func vhloopIsOp(k string) bool {
 	switch k {
-	case "read", "clunk", "attach", "getattr", "setattr", "clone":
-		return true
+	case "flush", "badtype", "short", "rmsg":
+		return false
 	}
-	return false
+	return true
 }
 
 // ---------------------------------------------------------------------------
@@ -111,6 +150,15 @@ type vhloopEntry struct {
 	flush           bool
 	waits           *vhloopEntry
 	done            bool
+	frame           vhloopFrame
+}
+
+// root follows a chain of flushes down to the request they all wait for.
+func (e *vhloopEntry) root() *vhloopEntry {
+	for e != nil && e.flush {
+		e = e.waits
+	}
+	return e
 }
 
 type vhloopTwin struct {
@@ -148,7 +196,7 @@ func (t *vhloopTwin) send(c int, f vhloopFrame, w *vhloopWant) {
 	if h := t.holder[k]; h != nil {
 		return // tag in flight: dropped without a reply
 	}
-	e := &vhloopEntry{conn: c, tag: f.Tag, gate: -1}
+	e := &vhloopEntry{conn: c, tag: f.Tag, gate: -1, frame: f}
 	t.holder[k] = e
 	switch {
 	case vhloopIsOp(f.K):
@@ -237,7 +285,7 @@ func vhloopBarriers(scn vhloopScn) vhloopScn {
 		case "break":
 			tw.dead[st.Conn] = true
 			continue
-		case "hangup":
+		case "hangup", "hold":
 			continue
 		}
 		dropped, lastUngated := false, false
@@ -278,9 +326,28 @@ func vhloopRun(prop string, scn vhloopScn) vhloopObs {
 		hs := [][]byte{vhloopEnc(uint16(noTag), &tversion{MSize: 8192, Version: "9P2000.L"})}
 		want := []msgType{msgRversion}
 		for k := 0; k < scn.NFid; k++ {
+			kind := byte('r')
+			if k < len(scn.Kinds) {
+				kind = scn.Kinds[k]
+			}
+			bk.mu.Lock()
+			switch kind {
+			case 'd', 'D':
+				bk.modes[c*scn.NFid+k] = ModeDirectory
+			case 'l':
+				bk.modes[c*scn.NFid+k] = ModeSymlink
+			}
+			bk.mu.Unlock()
 			hs = append(hs, vhloopBytes(vhloopFrame{K: "attach", Tag: 1, Fid: k}))
-			hs = append(hs, vhloopEnc(2, &tlopen{fid: fid(k), Flags: ReadOnly}))
-			want = append(want, msgRattach, msgRlopen)
+			want = append(want, msgRattach)
+			switch kind {
+			case 'r':
+				hs = append(hs, vhloopEnc(2, &tlopen{fid: fid(k), Flags: ReadWrite}))
+				want = append(want, msgRlopen)
+			case 'D':
+				hs = append(hs, vhloopEnc(2, &tlopen{fid: fid(k), Flags: ReadOnly}))
+				want = append(want, msgRlopen)
+			}
 		}
 		for i, b := range hs {
 			if err := v.write(b); err != nil {
@@ -308,7 +375,7 @@ func vhloopRun(prop string, scn vhloopScn) vhloopObs {
 				if vhloopIsOp(f.K) && f.Gate >= 0 && !f.NoEnter {
 					bk.shut(f.Gate)
 				}
-				if f.K == "read" && f.Gate < 0 && f.Mode != 0 {
+				if (f.K == "read" || f.K == "write") && f.Gate < 0 && f.Mode != 0 {
 					g := int(uint64(1<<40) + uint64(f.Mode))
 					bk.shut(g)
 					bk.release(g, f.Mode)
@@ -316,12 +383,17 @@ func vhloopRun(prop string, scn vhloopScn) vhloopObs {
 				if f.K == "flush" && tw.holder[[2]int{st.Conn, f.Tag}] == nil {
 					// which backend call must be over before this flush is answered: the one made on behalf
 					// of the request in flight with tag Old (if it is in a gated backend call of its own)
-					g := -1
+					var wt *vhloopWatch
 					if h := tw.holder[[2]int{st.Conn, f.Old}]; h != nil && f.Old != f.Tag {
-						g = h.gate
+						if e := h.root(); e != nil {
+							wt = &vhloopWatch{Files: e.frame.Files, Off: -1, Gate: e.gate}
+							if (e.frame.K == "read" || e.frame.K == "write") && e.frame.Gate >= 0 && !e.frame.NoEnter && e.frame.Fid < scn.NFid {
+								wt.OffFile, wt.Off = e.conn*scn.NFid+e.frame.Fid, int64(e.frame.Gate)
+							}
+						}
 					}
 					v.mu.Lock()
-					v.targets[f.Tag] = g
+					v.targets[f.Tag] = wt
 					v.mu.Unlock()
 				}
 				tw.send(st.Conn, f, w)
@@ -333,6 +405,8 @@ func vhloopRun(prop string, scn vhloopScn) vhloopObs {
 		case "release":
 			tw.release(st.Gate, w)
 			bk.release(st.Gate, st.Mode)
+		case "hold": // keep every gate as it is for Mode milliseconds; whatever arrives meanwhile is recorded
+			time.Sleep(time.Duration(st.Mode) * time.Millisecond)
 		case "break":
 			tw.dead[st.Conn] = true
 			conns[st.Conn].stopReading()
@@ -382,8 +456,17 @@ func vhloopRun(prop string, scn vhloopScn) vhloopObs {
 		tw.endPhase()
 		o.Phases = append(o.Phases, ph)
 	}
-	// teardown: nothing blocks any more, every peer closes, every Handle must return
+	// "no backend call made on behalf of the flushed request starts after its Rflush": look at the monitor's log
+	// (up to here: the teardown closes every File, which is nobody's request)
 	bk.openAll()
+	for pi := range o.Phases {
+		for ri := range o.Phases[pi].Replies {
+			if r := &o.Phases[pi].Replies[ri]; r.watch != nil {
+				r.Late = bk.lateFor(r.watch, r.seq)
+			}
+		}
+	}
+	// teardown: nothing blocks any more, every peer closes, every Handle must return
 	o.Returned = true
 	for _, v := range conns {
 		v.q.Close()
@@ -477,6 +560,12 @@ func vhloopOnFile(k string, tag, fid, file int, gated bool) vhloopFrame {
 	return vhloopFrame{K: k, Tag: tag, Gate: g, Fid: fid, NewFid: 500 + tag}
 }
 
+// vhloopWith: the request has these Files to itself (every backend call on them is made on its behalf).
+func vhloopWith(f vhloopFrame, files ...int) vhloopFrame {
+	f.Files = files
+	return f
+}
+
 // vhloopBehind: a request that the lock order puts after the request sitting in gate g.
 func vhloopBehind(f vhloopFrame, g int) vhloopFrame {
 	f.Gate = g
@@ -553,6 +642,9 @@ func vhloopRandomW(r *rand.Rand, name string, nact, maxInFlight int, frag, flush
 		switch {
 		case c < 30 && len(closed) < maxInFlight: // gated read
 			f := vhloopRead(pickFree(), nextGate)
+			if r.Intn(3) == 0 {
+				f.K = "write"
+			}
 			closed = append(closed, nextGate)
 			nextGate++
 			st = vhloopSend(f)
